@@ -327,6 +327,75 @@ func genCasePool(c *Ctx, mode string) {
 	if !nc.dead {
 		nc.propose()
 	}
+	if !nc.dead {
+		nc.proposeEpilogue()
+	}
 	c.Distinct(fmt.Sprintf("pool-%d-%d", c.Seed, c.nOps))
 	c.Count(fmt.Sprintf("E=%d", E))
+}
+
+// proposeEpilogue (implementation only, after the last op line of the case, so the model is not
+// involved): transactions whose TimeRange ends at, one after, and two after the best height are
+// submitted, then the real proposer builds a block and the node must accept its own block.
+// A transaction with TimeRange == best height is fine for the pool (it is checked against the
+// best block) but expired for the next block: the proposer must leave it out.
+func (nc *nodeCase) proposeEpilogue() {
+	n := nc.sut
+	best := n.chain.BestBlockHeader()
+	bestName := nc.nm.name(best.Hash())
+	bv := nc.branchView(bestName)
+	avail := nc.spendable(bv, best.Height+1)
+	submitted := 0
+	for k, in := range avail {
+		if k >= 3 {
+			break
+		}
+		o := nc.ln.outs[in]
+		if o.amount <= ledgerFee+1 || o.kind != 'n' {
+			continue
+		}
+		data := types.TxData{Version: 1, TimeRange: best.Height + uint64(k)}
+		data.Inputs = append(data.Inputs, spendInputFor(o))
+		data.Outputs = append(data.Outputs, types.NewOriginalTxOutput(*consensus.BTMAssetID, o.amount-ledgerFee, []byte{0x51}, nil))
+		tx := finalizeTx(data)
+		func() {
+			defer func() { recover() }()
+			if _, err := n.chain.ValidateTx(tx); err == nil {
+				submitted++
+			}
+		}()
+	}
+	if submitted == 0 {
+		return
+	}
+	nc.c.Count("epilogue-timerange-submissions")
+	bestHash := best.Hash()
+	ck, err := n.chain.PrevCheckpointByPrevHash(&bestHash)
+	if err != nil {
+		return
+	}
+	ts := best.Timestamp + nodeInterval
+	for slotOrder(ck.Timestamp, ts, len(nc.env.keys)) != nc.env.localIdx {
+		ts += nodeInterval
+	}
+	var blk *types.Block
+	var perr error
+	func() {
+		defer func() {
+			if rec := recover(); rec != nil {
+				perr = fmt.Errorf("panic: %v", rec)
+			}
+		}()
+		v := &state.Validator{PubKey: nc.env.pubs[nc.env.localIdx], Order: nc.env.localIdx}
+		blk, perr = proposal.NewBlockTemplate(n.chain, v, nil, ts, 10*time.Second, 20*time.Second)
+	}()
+	if perr != nil || blk == nil {
+		nc.c.Fail("C38:proposer-fails", fmt.Sprintf("NewBlockTemplate with boundary TimeRange transactions in the pool failed on best %s: %v", bestName, perr))
+		return
+	}
+	r := n.processBlock(blk)
+	if r.String() != "ok" {
+		nc.c.Fail("C38:proposed-block-rejected", fmt.Sprintf("pool holds transactions with TimeRange = best height %d (+0,+1,+2): the node rejects the block its own proposer built on %s: %v %s", best.Height, bestName, r.err, r.panic))
+	}
+	nc.c.Count("epilogue-proposals")
 }
